@@ -1,5 +1,4 @@
 // Suites that need access to items private to this module (feature ipa-verif, test builds only).
-<<<<<<< HEAD
 //
 // ---------------------------------------------------------------------------------------------
 // C20 — h2h / s2s endpoints refuse unauthenticated callers. `include!`d as
@@ -261,7 +260,14 @@ pub mod c20 {
             }
         }
         v
-=======
+    }
+}
+
+#[test]
+fn verif_c20_http() {
+    crate::ipa_verif::proto::run_suite("c20_http", c20::generate, c20::exec);
+}
+
 
 // ------------------------------------------------------------------------------------------------
 // C09 — query string suite (c09_query): c09.query str|parse|rt|json …  (needs net::http_serde, private to net)
@@ -412,16 +418,10 @@ pub mod c09_qs {
             out.push(format!("c09.query parse {q}"));
         }
         out
->>>>>>> agent-a2
     }
 }
 
 #[test]
-<<<<<<< HEAD
-fn verif_c20_http() {
-    crate::ipa_verif::proto::run_suite("c20_http", c20::generate, c20::exec);
-}
-=======
 fn verif_c09_query() {
     crate::ipa_verif::proto::run_suite("c09_query", c09_qs::generate, |req| {
         let t: Vec<&str> = req.split(' ').collect();
@@ -429,4 +429,3 @@ fn verif_c09_query() {
     });
 }
 
->>>>>>> agent-a2
